@@ -28,7 +28,7 @@ def run(R):
             t = b.term(bb)
             if t['k'] != 'switch':
                 continue
-            o = b.origin(t['on'])
+            o = mirlib.norm_cmp(b.origin(t['on']))
             if o[0] == 'bin' and o[1] in ('Gt', 'Ge', 'Lt', 'Le') and (term_contains(o[2], lambda x: is_call(x, name='get_u32')) or term_contains(o[3], lambda x: is_call(x, name='get_u32'))):
                 test = (bb, o)
         if test is None:
@@ -75,7 +75,7 @@ def run(R):
             t = b.term(bb)
             if t['k'] != 'switch':
                 continue
-            o = b.origin(t['on'])
+            o = mirlib.norm_cmp(b.origin(t['on']))
             if o[0] == 'bin' and o[1] in ('Gt', 'Ge', 'Lt', 'Le'):
                 tests.append((bb, o))
         lim_t = [(bb, o) for bb, o in tests if term_contains(o, lambda x: is_call(x, name='unwrap_or'))]
